@@ -189,12 +189,15 @@ theorem sub_base_l_den_ob (result : Region) (a : BitVec 64) :
   unfold G3_sub__a3Ea3_al_result_b
   ext <;> simp [den3, Region.set, K3.mul, K3.add, K3.sub, K3.neg, K3.ofBase, den_add_r, den_sub_r, den_mul_r, den_neg_r, den_fromU64] <;> ring
 
+/-- neg: whether written as `sub(result, zero(), a)` or coefficient-wise through `Goldilocks::neg` -/
 theorem neg_den (result a : Region) : den3 (G3_neg result a) = K3.neg (den3 a) := by
   unfold G3_neg
-  rw [sub_den, den3_zero_r]; simp only [K3.sub, K3.neg, K3.zero]; ext <;> simp only <;> ring
+  try simp only [sub_den, sub_den_ob, den3_zero_r]
+  ext <;> simp [den3, Region.set, K3.mul, K3.add, K3.sub, K3.neg, K3.zero, K3.ofBase, den_add_r, den_sub_r, den_mul_r, den_neg_r, den_fromU64] <;> ring
 theorem neg_den_oa (result : Region) : den3 (G3_neg_al_result_a result) = K3.neg (den3 result) := by
   unfold G3_neg_al_result_a
-  rw [sub_den_ob, den3_zero_r]; simp only [K3.sub, K3.neg, K3.zero]; ext <;> simp only <;> ring
+  try simp only [sub_den, sub_den_ob, den3_zero_r]
+  ext <;> simp [den3, Region.set, K3.mul, K3.add, K3.sub, K3.neg, K3.zero, K3.ofBase, den_add_r, den_sub_r, den_mul_r, den_neg_r, den_fromU64] <;> ring
 
 theorem mul_den (result a b : Region) :
     den3 (G3_mul__a3a3a3 result a b) = K3.mul (den3 a) (den3 b) := by
